@@ -1067,7 +1067,9 @@ class Gen:
             ctx.labels.append(g.gather_label)
             if level == 1 and ctx.kind == "node":
                 ctx.scope.labels.append(ctx.scope.nodes[ctx.index] + "." + g.gather_label)
-        if self.p(0.7):
+        # never a bare "-": inside a stitch, a bare gather after a "start [bracket]" choice makes the
+        # compiled story underflow the evaluation stack
+        if self.p(0.7) or not g.gather_label:
             g.gather_text = self.text(ctx, plain=self.p(0.5))
             g.gather_text.lead = g.gather_text.trail = ""
         return g
